@@ -122,6 +122,7 @@ def run_case(case, st=None):
         if R.STATS["error_through_function_argument"]: carve.append("T6-error-through-function-argument")
         if R.STATS["error_inside_IN_list"]: carve.append("T7-error-inside-IN-list")
         if R.STATS["str_of_bnode"]: carve.append("T8-STR-of-blank-node")
+        if R.STATS["float_arithmetic"]: carve.append("T9-xsd:float-arithmetic-gives-double")
         for c in carve: st.setdefault("_known", {})[c] = 1
     if carve:
         st["carved"] = st.get("carved", 0) + 1
